@@ -2,14 +2,66 @@
    Statements over Model/SymCoreTyped.v; proofs in Proofs/SymCoreTyped*.v.  See design/C03.md. *)
 From Coq Require Import ZArith NArith List Bool.
 Import ListNotations.
-From PG Require Import Model.SymCoreDefs Model.SymCoreOps Model.SymCoreTyped Proofs.SymCoreTypedBase.
-From PG Require Model.Typing.
+From PG Require Import Model.SymCoreDefs Model.SymCoreOps Model.SymCoreTyped.
+From PG Require Import Proofs.SymCoreTypedBase Proofs.SymCoreTypedConf Proofs.SymCoreTypedLit Proofs.SymCoreTypedPrims
+                       Proofs.SymCoreTypedOps Proofs.SymCoreTypedTheorems.
+From PG Require Import Model.Typing.
+Local Open Scope Z_scope.
+
+(* The invariant, for every history of the modelled operations (successful AND refused calls: a step is a call with its
+   outcome), every scope stack, every forest constructed from the case (constructions that are refused leave no value):
+   every node that carries a schema satisfies [Conforms] (Proofs/SymCoreTypedConf.v; spelled out by the two theorems
+   below).  [_partial]: the schemas of the table are union-free, their frozen values and Enum candidates atomic
+   ([good_env]: this keeps clear of the two open findings that live inside the vocabulary of the model), and the flag of
+   the Union finding is off.  P records whether the history may use an allow_partial(True) scope. *)
+Theorem C03_schema_invariant_partial : forall q ev P rs ops,
+  good_env ev -> history_ok P ops ->
+  Conforms ev P (run_ops2 q false ev (fst (init_roots false ev empty_state rs)) ops).
+Proof. exact schema_invariant. Qed.
+Print Assumptions C03_schema_invariant_partial.
+
+(* one step, from any conforming forest *)
+Theorem C03_schema_invariant_step_partial : forall q ev P st o,
+  good_env ev -> scope_ok P (o2_scope o) -> Conforms ev P st -> Conforms ev P (fst (step2 q false ev st o)).
+Proof. exact schema_invariant_step. Qed.
+Print Assumptions C03_schema_invariant_step_partial.
+
+(* What Conforms says about a list that carries a List spec: sizes within the declared bounds, every leaf item accepted by
+   the element spec and mapped to itself, every dict / list item routed by the element spec to a Dict / List spec (or Any)
+   and carrying exactly that spec, MISSING_VALUE only when the value was made partial. *)
+Theorem C03_conforms_list : forall ev P st ps i pa pt fl its e mn mx m,
+  Conforms ev P st -> get_at st ps = Some (Node i KList pa pt fl its) -> spec_at ev (f_spec fl) = Some (SList e mn mx m) ->
+  mn <= count_present its /\ count_present its <= zlen its /\ (forall mm, mx = Some mm -> zlen its <= mm) /\
+  (forall k l, In (k, Leaf l) its -> exists p', apply p' e (leaf_pv l) = Ok (leaf_pv l)) /\
+  (forall k j kd pa' pt' fl' its', In (k, Node j kd pa' pt' fl' its') its ->
+     match kd with
+     | KDict => route true e = true /\ f_spec fl' = ref_opt ev (bound_for true e)
+     | KList => route false e = true /\ f_spec fl' = ref_opt ev (bound_for false e)
+     | KObj c => exists p', apply p' e (obj_pv c) = Ok (obj_pv c)
+     end) /\
+  (good e = true -> part P fl = false -> forall k, ~ In (k, Leaf LMissing) its).
+Proof. exact conforms_list. Qed.
+Print Assumptions C03_conforms_list.
+
+(* ... and about a dict / an object that carries a schema: only declared keys, every declared key present, every leaf member
+   accepted by its field and mapped to itself, a frozen field equal to its frozen value, a required field MISSING_VALUE
+   only when the value was made partial. *)
+Theorem C03_conforms_dict : forall ev P st ps i kd pa pt fl its fs m,
+  Conforms ev P st -> get_at st ps = Some (Node i kd pa pt fl its) -> kd <> KList ->
+  spec_at ev (f_spec fl) = Some (SDict (Some fs) m) ->
+  (forall k c, In (k, c) its -> exists f, dict_field fs k = Some f) /\
+  (forall s, has_const s fs = true -> SymCoreDefs.has_key (KS s) its = true) /\
+  (forall k l f, In (k, Leaf l) its -> dict_field fs k = Some f ->
+     (exists p', apply p' f (leaf_pv l) = Ok (leaf_pv l)) /\ (frozen (mods_of f) = true -> leaf_pv l = dflt (mods_of f))) /\
+  (forall k f, In (k, Leaf LMissing) its -> dict_field fs k = Some f -> good f = true -> part P fl = true).
+Proof. exact conforms_dict. Qed.
+Print Assumptions C03_conforms_dict.
 
 (* A write that is rejected (with any error: type / value / key errors of the schema, and also permission and index
    errors) is not stored: a refused operation that is not a batch, on a target that checks its members against a schema,
-   leaves the whole forest exactly as it was. *)
+   leaves the whole forest exactly as it was (any quirk flags). *)
 Theorem C03_rejected_not_stored : forall q nf ev st o st' e,
-  step2 q nf ev st o = (st', Err e) -> batch_op (o2_op o) = false ->
+  step2 q nf ev st o = (st', SymCoreOps.Err e) -> batch_op (o2_op o) = false ->
   (forall n, get_at st (o2_pos o) = Some n -> checks_members ev n = true) ->
   st' = st.
 Proof. exact step2_rejected_unchanged. Qed.
@@ -34,3 +86,20 @@ Theorem C03_rejected_extend_prefix : forall q nf ev sc xs st ps upd st' upd' e,
     tprim q nf ev sc st' ps (KI (cur_len st' ps)) x = (st', PErr e).
 Proof. exact textend_loop_prefix. Qed.
 Print Assumptions C03_rejected_extend_prefix.
+
+(* Open finding, inside the model: a dict held by a frozen field is written to in depth (d.a.b = 2 with a frozen to
+   {b: 1}); afterwards the field's spec no longer maps the member to itself.  (The schema is outside [good_env].) *)
+Theorem C03_frozen_container_refuted :
+  gstate frozen_ev (fst (init_roots false frozen_ev empty_state frozen_roots)) = true /\
+  gstate frozen_ev (run_ops2 q0 false frozen_ev (fst (init_roots false frozen_ev empty_state frozen_roots)) frozen_ops) = false /\
+  forallb good (e_tab frozen_ev) = false.
+Proof. exact frozen_deep_witness. Qed.
+Print Assumptions C03_frozen_container_refuted.
+
+(* Open finding (C04 seen through a typed container): with the flag on — the code as it is — the value a Union hands out
+   is stored although the Union does not map it to itself; with the flag off the model refuses to store it. *)
+Theorem C03_union_result_refuted :
+  gstate union_ev (run_ops2 q0 true union_ev (fst (init_roots true union_ev empty_state union_roots)) union_ops) = false /\
+  gstate union_ev (run_ops2 q0 false union_ev (fst (init_roots false union_ev empty_state union_roots)) union_ops) = true.
+Proof. exact union_witness. Qed.
+Print Assumptions C03_union_result_refuted.
